@@ -175,6 +175,39 @@ def gen_transcript(rng, lo, hi, idx="0", coding_p=0.65, strand=None, seqname="ch
     return spec
 
 
+def cassette_isoform(rng, t, suffix="c"):
+    """An isoform with the same exon span and the same CDS start/end as ``t`` but another internal structure: one CDS
+    block (and the exon around it) is split by a short intron.  None if no block is long enough."""
+    if not t.get("cds_starts"):
+        return None
+    cands = [i for i, (a, b) in enumerate(zip(t["cds_starts"], t["cds_ends"])) if b - a >= 7]
+    if not cands:
+        return None
+    i = rng.choice(cands)
+    a, b = t["cds_starts"][i], t["cds_ends"][i]
+    gap = rng.choice([1, 2, 3, 4])
+    p = rng.randint(a + 2, b - gap - 2) if b - gap - 2 >= a + 2 else None
+    if p is None:
+        return None
+    n = copy.deepcopy(t)
+    n["cds_starts"] = t["cds_starts"][:i] + [a, p + gap] + t["cds_starts"][i + 1:]
+    n["cds_ends"] = t["cds_ends"][:i] + [p, b] + t["cds_ends"][i + 1:]
+    for j, (ea, eb) in enumerate(zip(t["exon_starts"], t["exon_ends"])):
+        if ea <= a and b <= eb:
+            n["exon_starts"] = t["exon_starts"][:j] + [ea, p + gap] + t["exon_starts"][j + 1:]
+            n["exon_ends"] = t["exon_ends"][:j] + [p, eb] + t["exon_ends"][j + 1:]
+            break
+    else:
+        return None
+    first = 0 if t["strand"] == "PLUS" else -1
+    f0 = {"ZERO": 0, "ONE": 1, "TWO": 2}[t["cds_frames"][first]]
+    n["cds_frames"] = frames_for(n["cds_starts"], n["cds_ends"], t["strand"], f0)
+    for k in ("transcript_id", "transcript_symbol", "protein_id"):
+        if n.get(k):
+            n[k] = n[k] + suffix
+    return n
+
+
 def gen_gene(rng, lo, hi, idx="0", seqname="chr1", max_tx=3, same_strand=True, coding_p=0.65, quals=None, **txkw):
     ntx = rng.randint(1, max_tx)
     strand = rng.choice(["PLUS", "MINUS"]) if same_strand else None
